@@ -133,7 +133,8 @@ def _apply(c, jc, src, tgt, sub):
     try:
         r = c.rename_variable(Var(src), Var(tgt))
     except IncompatibleArgsError:
-        return "IncompatibleArgsError", None, None, None
+        # C16 says a rename YIELDS the substituted contract and raises only for an input/output clash
+        return "IncompatibleArgsError", None, None, None if ref is None else {"sub": sub, "what": "rename raised IncompatibleArgsError although no variable becomes both input and output"}
     except ValueError:
         feas = ref is not None and O.feasible(O.rts(plist(ref["a"])) + O.rts(plist(ref["g"])))
         return "ValueError", None, None, {"sub": sub, "what": "ValueError although the substituted constraints are satisfiable"} if feas else None
@@ -183,7 +184,7 @@ def run_case(case):
     try:
         r = c.rename_variables([tuple(m) for m in case["maps"]])
     except IncompatibleArgsError:
-        return [("IncompatibleArgsError", False, None, None)]
+        return [("IncompatibleArgsError", False, None, None if ref is None else {"sub": sub, "what": "mapping list raised IncompatibleArgsError although every step is admissible"})]
     except ValueError:
         return [("ValueError", False, None, None)]
     except Exception as e:  # noqa
